@@ -81,6 +81,8 @@ def _setup_module(I, st, file_kind="json", symbolic=True, defaults_present=False
     pcls = sx.ClassVal("FilePath", [sx.OBJECT], {})
 
     def read_text(I, self):
+        if fm.kind == "empty":
+            return ""
         return ("__filetext__", fm.kind, fm.data)
     pcls.ns["read_text"] = sx.Builtin("read_text", read_text)
 
@@ -103,6 +105,8 @@ def _setup_module(I, st, file_kind="json", symbolic=True, defaults_present=False
     path.attrs["parent"] = sx.Obj(sx.ClassVal("Dir", [sx.OBJECT], {"mkdir": sx.Builtin("mkdir", lambda I, self, **k: None)}))
 
     def loads(I, text):
+        if text == "":
+            raise sx.PyRaise(I.make_exc(JSONERR, ()))
         if isinstance(text, tuple) and text[0] == "__filetext__":
             if text[1] == "json":
                 cp = sx.SDict()
@@ -491,6 +495,16 @@ def unit_bounded_setup(tier=None, seed=0):
                                                                       "correct_tip_offset"]}),
         "preprocessing 1": (script(p0="1"), {"preprocessing": ["compute_tip_position"]}),
         "preprocessing 4 (prerequisite missing)": (script(p0="4"), "reprompt-or-valid"),
+        # selections that pass the order rules but lack the tip position the batch fit works on
+        "preprocessing 2 (no tip position)": (script(p0="2"), "reprompt-or-valid"),
+        "preprocessing 6 (no tip position)": (script(p0="6"), "reprompt-or-valid"),
+        "preprocessing 2,6 (no tip position)": (script(p0="2,6"), "reprompt-or-valid"),
+        "preprocessing 1,6": (script(p0="1,6"), "reprompt-or-valid"),
+        # steps whose required step is missing altogether (the order check of nanite.preproc has to refuse them)
+        "preprocessing 1,3 (slope correction without tip offset)": (script(p0="1,3"), "reprompt-or-valid"),
+        "preprocessing 1,5": (script(p0="1,5"), "reprompt-or-valid"),
+        "preprocessing 1,3,4 (prerequisite after the step)": (script(p0="1,3,4"), "reprompt-or-valid"),
+        "preprocessing 1,2,3,4,5,6 in the order of available()": (script(p0="AVAILABLE"), "reprompt-or-valid"),
         "model 1": (script(p1="1"), {"model_key": "hertz_cone"}),
         "E value 1234": (script(p2="1234"), {"fit param E value": 1234.0}),
         "E vary false": (script(p3="false"), {"fit param E vary": False}),
@@ -504,8 +518,12 @@ def unit_bounded_setup(tier=None, seed=0):
         "interval -2..0": (script(p13="-2", p14="0"), {"range_x": [-2e-6, 0.0]}),
         "contact point value 0 over a non-zero default": (script(p8="1e-6"), {"fit param contact_point value": 1e-6}),
     }
+    from nanite import preproc as _pp
+    _steps = [pp.identifier for pp in _pp.PREPROCESSORS]
+    _avail = ",".join(str(_steps.index(a) + 1) for a in _pp.available())
     problems, ne, samples = [], 0, []
     for name, (answers, expect) in scripts.items():
+        answers = [(_avail if a == "AVAILABLE" else a) for a in answers]
         tmp = pathlib.Path(tempfile.mkdtemp(prefix="vf-c19s-"))
         try:
             ne += 1
@@ -652,6 +670,10 @@ def units(tier):
           Unit("Profile.__init__", unit_init), Unit("Profile.get_fit_params", unit_get_fit_params),
           Unit("bounded.legacy_profiles", unit_bounded_legacy), Unit("bounded.interactive_setup", unit_bounded_setup),
           Unit("bounded.statistics_file", unit_bounded_statistics)]
+    # "every profile the setup can produce is accepted by the batch fit": the setup relies on the order check of
+    # nanite.preproc to refuse selections the batch fit cannot apply (contract shared with C14)
+    from . import c14
+    us += [Unit(f"check_order.n{n}", c14.unit_check_order, n=n, prop="C19") for n in range(0, 4)]
     if tier == "thorough" and not os.environ.get("VF_NO_CANARIES") and str(REPO) == "/repo":
         us.append(Unit("selftest.canaries", unit_canaries))
     return us
